@@ -18,8 +18,8 @@ MANIFEST = {
 
 INVARIANTS = ["C02_Billing"]
 PROPERTIES = ["C03_Attempts"]
-QUICK = ["billing"]
-THOROUGH = ["billing", "retry", "jpim"]
+QUICK = ['billing_s']
+THOROUGH = ['billing_s', 'billing_m', 'jpim_s', 'retry_s', 'billing']
 FINDINGS = []
 
 
